@@ -480,8 +480,10 @@ class Check:
     def explained_by_known(self, case):
         """A model/impl mismatch on a case whose oracle failure is a known
         finding is explained by that finding."""
-        ks = self.oracle_kinds(case)
-        return bool(ks) and all(match_known(self.ID, k, s) for k, s in ks)
+        # The models follow the code also where a known finding applies, so a
+        # model/implementation mismatch is never explained by one (a check
+        # whose model deliberately deviates there may override this).
+        return False
 
     def shrink(self, case, kind):
         return case
